@@ -141,11 +141,14 @@ Fixpoint harmonic_scan (l : list Q) : option bool :=     (* Some true: all posit
   end.
 Definition fn_HARMEAN (args : list value) : ares :=
   with_numbers false false args (fun ns =>
-    match ns with [] => AExc | _ =>
+    match ns with
+    | [] => AExc
+    | [x] => if Qnum (num_q x) <? 0 then AExc else AOk x      (* a single item is returned as it is *)
+    | _ =>
       match harmonic_scan (qs ns) with
       | None => AExc
-      | Some false => AOk (convert (all_int ns) 0)
-      | Some true => AOk (convert (all_int ns) (qlen ns / qsum (map Qinv (qs ns)))%Q)
+      | Some false => AOk (NI 0)                  (* statistics.harmonic_mean: `return 0` on the first zero, an int whatever the items *)
+      | Some true => AOk (NF (qlen ns / qsum (map Qinv (qs ns)))%Q)   (* the reciprocals 1/x are floats: a float whatever the items *)
       end end).
 (* LARGE(arr, n) *)
 Definition fn_LARGE (arr : value) (n : Z) : ares :=
